@@ -15,6 +15,10 @@
 //!         t<ms>              advance the paused clock
 //!         h                  drop the harness's client handle
 //!         e / r / w          end of stream / failing reads / failing writes from now on
+//!         p / u              the peer stops / resumes reading (writes block: back-pressure)
+//!         A                  from now on a built-in rule-abiding echo server answers what the client writes
+//!         n:<hexname>        (auto mode) a subsystem changes
+//!         z<id>:<spec>;<hexname>   (auto mode) a change and a raw_command in the same instant (select! tie)
 //!   spec  <name>[.<hexarg>]*       any  u<hexuri> | r<hexuri> | s
 use std::collections::{BTreeMap, VecDeque};
 use std::future::Future;
@@ -46,6 +50,94 @@ struct Shared {
     written: Vec<u8>,
     waker: Option<Waker>,
     dropped: bool,
+    wpaused: bool,
+    wwaker: Option<Waker>,
+    /// bytes written by the client that the built-in server (auto mode) has not looked at yet
+    srv_in: Vec<u8>,
+    auto: Option<AutoServer>,
+}
+
+/// A minimal rule-abiding MPD server living inside the transport (op `A`): used for schedules whose
+/// continuation depends on which select! branch tokio picks, where a scripted peer cannot be prepared.
+#[derive(Default)]
+struct AutoServer {
+    idle: bool,
+    pending: Vec<String>,
+    list: Option<Vec<String>>,
+    violated: bool,
+}
+
+impl AutoServer {
+    fn exec(line: &str, idx: usize) -> Result<String, String> {
+        let mut it = line.split(' ');
+        match it.next() {
+            Some("fail") => Err(format!("ACK [{}@{}] {{fail}} boom\n", it.next().unwrap_or("50"), idx)),
+            _ => Ok(format!("line: {}\n", line)),
+        }
+    }
+    fn flush(&mut self) -> String {
+        self.idle = false;
+        let mut out = String::new();
+        for p in self.pending.drain(..) {
+            out.push_str(&format!("changed: {}\n", p));
+        }
+        out.push_str("OK\n");
+        out
+    }
+    fn line(&mut self, line: &str) -> String {
+        if self.idle {
+            if line == "noidle" {
+                return self.flush();
+            }
+            self.violated = true;
+            return String::new();
+        }
+        if let Some(acc) = self.list.as_mut() {
+            if line == "command_list_end" {
+                let acc = self.list.take().unwrap();
+                let mut out = String::new();
+                for (i, l) in acc.iter().enumerate() {
+                    match Self::exec(l, i) {
+                        Ok(b) => {
+                            out.push_str(&b);
+                            out.push_str("list_OK\n");
+                        }
+                        Err(a) => return out + &a,
+                    }
+                }
+                return out + "OK\n";
+            }
+            acc.push(line.to_string());
+            return String::new();
+        }
+        match line {
+            "idle" => {
+                if self.pending.is_empty() {
+                    self.idle = true;
+                    String::new()
+                } else {
+                    self.flush()
+                }
+            }
+            "noidle" => String::new(),
+            "command_list_ok_begin" => {
+                self.list = Some(Vec::new());
+                String::new()
+            }
+            l => match Self::exec(l, 0) {
+                Ok(b) => b + "OK\n",
+                Err(a) => a,
+            },
+        }
+    }
+    fn notify(&mut self, name: &str) -> String {
+        self.pending.push(name.to_string());
+        if self.idle {
+            self.flush()
+        } else {
+            String::new()
+        }
+    }
 }
 
 struct Transport(Arc<Mutex<Shared>>);
@@ -79,7 +171,13 @@ impl AsyncWrite for Transport {
         if s.werr {
             return Poll::Ready(Err(io::Error::new(io::ErrorKind::BrokenPipe, "injected write error")));
         }
+        if s.wpaused {
+            // back-pressure: the peer does not read
+            s.wwaker = Some(_cx.waker().clone());
+            return Poll::Pending;
+        }
         s.written.extend_from_slice(buf);
+        s.srv_in.extend_from_slice(buf);
         Poll::Ready(Ok(buf.len()))
     }
     fn poll_flush(self: Pin<&mut Self>, _cx: &mut Context<'_>) -> Poll<io::Result<()>> {
@@ -260,6 +358,30 @@ impl Driver {
     async fn settle(&self) {
         for _ in 0..64 {
             tokio::task::yield_now().await;
+            self.serve_auto();
+        }
+    }
+
+    /// auto mode: the built-in server reads every complete line written so far and answers
+    fn serve_auto(&self) {
+        let mut wake = false;
+        {
+            let mut s = self.shared.lock().unwrap();
+            if s.auto.is_none() {
+                return;
+            }
+            while let Some(i) = s.srv_in.iter().position(|&b| b == b'\n') {
+                let line: Vec<u8> = s.srv_in.drain(..=i).collect();
+                let line = String::from_utf8_lossy(&line[..line.len() - 1]).to_string();
+                let out = s.auto.as_mut().unwrap().line(&line);
+                if !out.is_empty() {
+                    s.inbox.extend(out.as_bytes());
+                    wake = true;
+                }
+            }
+        }
+        if wake {
+            wake_reader(&self.shared);
         }
     }
 
@@ -327,6 +449,9 @@ impl Driver {
         if dropped {
             parts.push("D".into());
         }
+        if self.shared.lock().unwrap().auto.as_ref().map(|a| a.violated).unwrap_or(false) {
+            parts.push("V".into());
+        }
         let p = PANIC_COUNT.load(Ordering::SeqCst);
         if p != self.panics_seen {
             self.panics_seen = p;
@@ -369,6 +494,63 @@ impl Driver {
             }
             b'w' => {
                 self.shared.lock().unwrap().werr = true;
+            }
+            b'p' => {
+                self.shared.lock().unwrap().wpaused = true;
+            }
+            b'u' => {
+                let w = {
+                    let mut s = self.shared.lock().unwrap();
+                    s.wpaused = false;
+                    s.wwaker.take()
+                };
+                if let Some(w) = w {
+                    w.wake();
+                }
+            }
+            b'A' => {
+                let mut s = self.shared.lock().unwrap();
+                s.auto = Some(AutoServer::default());
+            }
+            b'n' => {
+                // auto mode: a subsystem changes
+                let out = {
+                    let mut s = self.shared.lock().unwrap();
+                    let name = unhex_str(arg).unwrap_or_default();
+                    match s.auto.as_mut() {
+                        Some(a) => a.notify(&name),
+                        None => String::new(),
+                    }
+                };
+                if !out.is_empty() {
+                    self.shared.lock().unwrap().inbox.extend(out.as_bytes());
+                    wake_reader(&self.shared);
+                }
+            }
+            b'z' => {
+                // a change and a request in the same instant: both select! branches become ready together
+                let (req, name) = arg.split_once(';').unwrap_or((arg, ""));
+                let out = {
+                    let mut s = self.shared.lock().unwrap();
+                    let name = unhex_str(name).unwrap_or_default();
+                    match s.auto.as_mut() {
+                        Some(a) => a.notify(&name),
+                        None => String::new(),
+                    }
+                };
+                if let Some(client) = self.client.clone() {
+                    let spec = req.to_string();
+                    self.spawn_req(id, async move {
+                        match client.raw_command(raw_of_spec(&spec)).await {
+                            Ok(f) => format!("ok[{}]", show_frame(&f)),
+                            Err(e) => show_cmd_err(&e),
+                        }
+                    });
+                }
+                if !out.is_empty() {
+                    self.shared.lock().unwrap().inbox.extend(out.as_bytes());
+                    wake_reader(&self.shared);
+                }
             }
             b't' => {
                 tokio::time::advance(Duration::from_millis(id as u64)).await;
